@@ -636,6 +636,7 @@ type result struct {
 	OpenObs        map[string]int      `json:"open_observations"`
 	Compressed     int                 `json:"frames_sent_compressed"`
 	CompressedRecv int                 `json:"frames_received_compressed"`
+	Pipelined      int                 `json:"behaviours_sent_in_one_write"`
 	Mismatches     []mismatch          `json:"mismatches"`
 	MismatchCounts map[string]int      `json:"mismatch_counts"`
 	Forward        map[string]int      `json:"forward_checks"`
@@ -667,6 +668,9 @@ type runner struct {
 	window time.Duration
 	wait   time.Duration
 	sample int32
+	// pipelined: every second behaviour whose steps all have one allowed outcome that keeps the connection is sent in
+	// ONE write per connection (the proxy's reader finds STARTUP and the frames behind it back to back)
+	pipelined bool
 }
 
 type sent struct {
@@ -712,6 +716,16 @@ func (rn *runner) replay(te *tenv, b *behIn) {
 		}
 	}()
 	var log []*sent
+	pipe := rn.pipelined && len(b.Steps) > 1 && b.id%2 == 0
+	if pipe {
+		for _, st := range b.Steps {
+			o, err := parseOutcome(st.O)
+			if err != nil || len(st.A) > 0 || o.Alive != "yes" || o.Ops["*"] {
+				pipe = false
+			}
+		}
+	}
+	pend := make([][]byte, nconn)
 	nextStream := make([]int16, nconn)
 	diverged, stopped, after := false, false, false
 	deadConn := make([]bool, nconn)
@@ -748,6 +762,19 @@ func (rn *runner) replay(te *tenv, b *behIn) {
 		}
 		s := &sent{step: st, f: f, conn: st.C, stream: stream, probe: probe, chosen: chosen, alts: alts, conc: conc, token: token, state: st.S, index: idx, after: after}
 		log = append(log, s)
+		if pipe && !probe {
+			// sent with the others in one write; the specification's outcome decides how the next frame is built
+			pend[ci] = append(pend[ci], conc.Bytes...)
+			if conc.Compressed {
+				res.mu.Lock()
+				res.Compressed++
+				res.mu.Unlock()
+			}
+			if chosen.Codec == "lz4" || chosen.Codec == "snappy" {
+				c.SetCompression(chosen.Codec)
+			}
+			return true
+		}
 		from := c.Count()
 		if debug {
 			fmt.Fprintf(os.Stderr, "DBG %s beh=%d c%d %s state=%s %s\n", te.label, b.id, st.C, st.F, st.S, conc.Desc)
@@ -818,6 +845,28 @@ func (rn *runner) replay(te *tenv, b *behIn) {
 		if !exec(st, false, i) {
 			break
 		}
+	}
+	if pipe {
+		for ci, c := range conns {
+			if len(pend[ci]) > 0 {
+				if err := c.SendBytes(pend[ci], 0, "PIPELINE", "", "c13"); err != nil {
+					for _, s := range log {
+						if s.conn == ci+1 {
+							s.sendErr = err.Error()
+						}
+					}
+				}
+			}
+		}
+		for _, s := range log {
+			if s.chosen.NMin >= 1 {
+				conns[s.conn-1].WaitStream(s.stream, 0, rn.wait)
+			}
+		}
+		time.Sleep(rn.settle)
+		res.mu.Lock()
+		res.Pipelined++
+		res.mu.Unlock()
 	}
 	if !diverged && !stopped {
 		for ci := 0; ci < nconn; ci++ {
@@ -1079,13 +1128,14 @@ func main() {
 	lowEnvs := flag.Bool("low", true, "also replay single-frame behaviours with the cluster maximum below the proxy maximum")
 	settleUs := flag.Int("settle-us", 1500, "pause after a reply before looking at the connection")
 	windowMs := flag.Int("window-ms", 25, "quiescence window at the end of a behaviour")
+	pipelined := flag.Bool("pipelined", true, "send every second deterministic multi-frame behaviour in one write per connection")
 	corrupt := flag.String("corrupt", "", "binding self-test: replace the expected opcode OLD=NEW in every outcome (e.g. SUPPORTED=READY)")
 	flag.Parse()
 
 	res := &result{Classes: map[string]int{}, OutcomeKinds: map[string]int{}, OpenObs: map[string]int{}, MismatchCounts: map[string]int{},
 		Forward: map[string]int{}, NoFwdTokens: map[string]mismatch{}, hookSaw: map[string]bool{}}
 	rn := &runner{k: newConcretiser(), res: res, probes: map[string][]stepIn{}, settle: time.Duration(*settleUs) * time.Microsecond,
-		window: time.Duration(*windowMs) * time.Millisecond, wait: 10 * time.Second}
+		window: time.Duration(*windowMs) * time.Millisecond, wait: 10 * time.Second, pipelined: *pipelined}
 	res.Mixed = rn.k.mixed
 
 	var behs []*behIn
